@@ -2,6 +2,7 @@ package main
 
 import (
 	"fmt"
+	"path/filepath"
 	"go/token"
 	"go/types"
 	"sort"
@@ -31,6 +32,12 @@ func runExtras(r *Runner, p *Property, tier string) ([]*LedgerEntry, []string) {
 			out = append(out, dvLemmaObligations(r)...)
 		case "fp-equiv":
 			out = append(out, r.equivObligations()...)
+		case "bounded-string-content":
+			out = append(out, boundedStandIn(r, "C06", "ReadStringBytes", "string-content", []byte("\"\\ubfnrt/a0D8C "))...)
+		case "bounded-float-differential":
+			out = append(out, boundedStandIn(r, "C04", "ReadFloat64", "float-differential", nil)...)
+		case "bounded-zero-alloc":
+			out = append(out, boundedStandIn(r, "C19", "readers", "zero-alloc", nil)...)
 		case "fp-noalloc-scan":
 			out = append(out, allocFreeScan(r.eng, "fp.(*decimal).floatBits")...)
 		case "fp-equiv-loops":
@@ -293,4 +300,37 @@ func globalStoreScan(eng *Engine) []*LedgerEntry {
 		out = append(out, e)
 	}
 	return out
+}
+
+// Bounded stand-ins (labelled bounded, never counted as proved) for parts of a claimed property that
+// no discharged contract covers. Each runs the property's replay oracle over its whole search space
+// (enumeration over an alphabet up to a length, a corpus of structured documents, their truncations
+// and single-byte mutations, family-specific seeds) against the real code.
+//   C06: decoded content of string tokens vs the RFC 8259 decoding (rjvSpecDecodeString, itself
+//        compared with encoding/json on 1.1M contents in go test);
+//   C04: ReadFloat64 vs strconv.ParseFloat bit for bit on boundary literals and 3M pseudo-random ones
+//        (stands in for the unchecked argument that the decision structure rounds correctly);
+//   C19: zero heap allocations (testing.AllocsPerRun) of the scalar readers and of SkipValue /
+//        SkipValueFast / Valid / HandleArrayValues / HandleObjectValues with a warmed Buffer and
+//        ReadStringBytes / UnescapeStringContent with spare capacity.
+func boundedStandIn(r *Runner, prop, fn, what string, alpha []byte) []*LedgerEntry {
+	p := &Property{ID: prop}
+	e := &LedgerEntry{Name: "bounded/" + prop + "/" + what, Kind: "bounded", Fn: fn, Instances: 1, alphaOverride: alpha}
+	rt, ok := concreteReplay(r.eng, p, e, nil, filepath.Join(outDir(), "replays", prop, "bounded_"+what))
+	switch {
+	case !ok:
+		e.Status, e.Detail = "undecided", "no replay family"
+	case rt.Reproduced || rt.File != "":
+		e.Status = "failed"
+		e.Detail = "failing input found on the real code: " + rt.Input
+		e.replayInput = rt.File
+	case !strings.Contains(rt.Output, "RJV-REPLAY-NONE"):
+		e.Status, e.Detail = "undecided", "the bounded search did not run: "+tail(rt.Output, 400)
+	default:
+		e.Status = "discharged"
+		e.Solver = "bounded-enumeration"
+		i := strings.Index(rt.Output, "RJV-REPLAY-NONE")
+		e.Detail = rt.Input + "; " + strings.TrimSpace(strings.SplitN(rt.Output[i:], "\n", 2)[0])
+	}
+	return []*LedgerEntry{e}
 }
